@@ -118,11 +118,18 @@ func runC08(c *Ctx) {
 						}
 					}
 				}
+				// `isNewConn := c == nil` for the connection the idle pool handed out
+				if bo, ok := v.(*ssa.BinOp); ok && bo.Op == token.EQL && isNilConst(bo.Y) && idlePoolResult(bo.X) {
+					isFlag = true
+				}
 				if isFlag {
 					hasNotNew = true
 					isNewV = v
 					continue
 				}
+			}
+			if g.Derived {
+				continue
 			}
 			extra = append(extra, exprStr(g.Cond)+fmt.Sprintf("=%v", g.Truth))
 		}
@@ -195,6 +202,33 @@ func runC08(c *Ctx) {
 				}
 				good, why := checkIsNewProducer(g, v.Index)
 				c.check(good, key+"/"+g.Name(), g.Pos(), "flag is true exactly when this call created the connection and reserved on it", why)
+			case *ssa.BinOp: // reuse: `isNewConn := idle == nil`; the dial runs exactly under it
+				good, nDial := true, 0
+				eachInstr(f, func(in ssa.Instruction) {
+					ci, ok := in.(*ssa.Call)
+					if !ok || !strings.HasSuffix(callName(ci), ".getNewConn") {
+						return
+					}
+					nDial++
+					under := false
+					for _, g := range guardsOfInstr(in) {
+						if bv, truth := g.asBool(); bv == ssa.Value(v) && truth {
+							under = true
+							continue
+						}
+						if cm, ok := g.asCmp(); ok && isNilConst(cm.Y) && cm.X.Type().String() == "error" {
+							continue
+						}
+						if g.Derived {
+							continue
+						}
+						good = false
+					}
+					if !under {
+						good = false
+					}
+				})
+				c.check(good && nDial > 0, key, valuePos(v), "the flag is 'the idle pool had no connection', and the dial runs exactly under it", "the is-new flag does not coincide with 'this call dialled the connection': a failure on a reused connection is reported, or a failing fresh dial is retried")
 			default:
 				c.undecided(key, valuePos(isNewV), "unrecognised is-new flag %s", exprStr(isNewV))
 			}
@@ -295,7 +329,7 @@ func runC08(c *Ctx) {
 func checkIsNewProducer(g *ssa.Function, idx int) (bool, string) {
 	var dial ssa.Instruction
 	eachInstr(g, func(in ssa.Instruction) {
-		if ci, ok := in.(*ssa.Call); ok && strings.HasSuffix(callName(ci), ".newLazyDnsConn") {
+		if ci, ok := in.(*ssa.Call); ok && (strings.HasSuffix(callName(ci), ".newLazyDnsConn") || strings.HasSuffix(callName(ci), ".getNewConn")) {
 			dial = in
 		}
 	})
@@ -318,6 +352,9 @@ func checkIsNewProducer(g *ssa.Function, idx int) (bool, string) {
 			}
 			// a true leaf must flow from the dial's block (or one it dominates)
 			viaDial := lf.pred != nil && (lf.pred == dial.Block() || dial.Block().Dominates(lf.pred))
+			if lf.pred == nil && dial.Block().Dominates(r.Block()) {
+				viaDial = true // a constant returned directly by a return that lies behind the dial
+			}
 			if !viaDial {
 				good, why = false, "the flag can be true on a path that did not dial a new connection"
 			}
@@ -355,7 +392,39 @@ func checkIsNewProducer(g *ssa.Function, idx int) (bool, string) {
 		}
 	}
 	if !setAtDial {
+		// explicit-return shape: every return behind the dial that reports no error returns the constant true, and
+		// there is one
+		okAll, nTrue := true, 0
+		for _, r := range returnsOf(g) {
+			if !dial.Block().Dominates(r.Block()) {
+				continue
+			}
+			rv := returnedValues(r)
+			if !isNilConst(rv[len(rv)-1]) {
+				continue
+			}
+			if b, ok := constBool(rv[idx]); ok && b {
+				nTrue++
+			} else {
+				okAll = false
+			}
+		}
+		if okAll && nTrue > 0 {
+			setAtDial = true
+		}
+	}
+	if !setAtDial {
 		return false, "the flag is not set to true unconditionally where the connection is dialled: a freshly dialled connection can be reported as a reused one, so its failure is retried instead of reported"
 	}
 	return good, why
+}
+
+// idlePoolResult: v is the connection result of a getIdleConn call (through phis of the retry loop not followed).
+func idlePoolResult(v ssa.Value) bool {
+	ex, ok := v.(*ssa.Extract)
+	if !ok || ex.Index != 0 {
+		return false
+	}
+	cl, ok := ex.Tuple.(*ssa.Call)
+	return ok && strings.HasSuffix(callName(cl), ".getIdleConn")
 }
